@@ -592,6 +592,10 @@ def check_materialised(acc, where, box, prev, tree, desc, rpl):
     return ok
 
 
+def _kind1(e):
+    return {"f": "file", "l": "symlink", "d": "empty-directory"}.get(e[0], e[0])
+
+
 def _short(e):
     if e is None:
         return "absent"
@@ -761,9 +765,12 @@ STARTS = {
     # start states whose index file was last written by C git (cache-tree extension present)
     "S11": (((b"a", "P"), (b"b", "X")), [b"a"], (("git_reset",),)),
     "S12": (((b"d/x", "X"), (b"d/y", "P")), [b"d/y"], (("git_write_tree",),)),
+    # staged mode-only change (a: +x) and staged type-only change (b: symlink whose target is the old content)
+    "S13": (((b"a", "P"), (b"b", "X")), [b"a"], (("chmod", b"a"), ("stage", b"a"), ("link", b"b", b"x"), ("stage", b"b"))),
 }
+RESTORE = ("co_paths", "reset_file", "restore")  # dulwich operations that are meant to rewrite one work-tree path
 GIT_OPS = ("git_reset", "git_write_tree")  # git_reset = read-tree HEAD + update-index --refresh
-TERMINAL = ("reset_hard", "switch_force")  # judged, never extended: the model does not predict their result
+TERMINAL = ("reset_hard", "switch_force", "reset_mixed", "reset_mixed_alt")  # judged, never extended: the model does not predict their result
 
 
 def alt_tree(sid):
@@ -815,6 +822,8 @@ def menu(st, paths, alt=None):
             ops.append(("chmod", p))
         if e is not None:
             ops.append(("del", p))
+        if isl:
+            ops.append(("flatten", p))  # regular file holding the link text (what a symlink-unaware copy leaves)
         if parents_ok:
             if not isf:
                 ops.append(("file", p))
@@ -836,7 +845,18 @@ def menu(st, paths, alt=None):
             ops.append(("unstage", p))
         if p in st.index:
             ops.append(("rmc", p))
+        # restoring one path from HEAD / from the index; only where nothing but a file or symlink can be in the way
+        if e != "dir" and parents_ok:
+            parents_exist = all(wm.wd_lookup(st.wd, q) == "dir" for q in wm.prefixes(p))
+            clash = any(q.startswith(pre) for q in st.index) or any(q in st.index for q in wm.prefixes(p))
+            if p in st.head and not clash:
+                ops.append(("co_paths", p))
+            if p in st.head and parents_exist:
+                ops.append(("reset_file", p))
+            if p in st.index and parents_exist:
+                ops.append(("restore", p))
     ops.append(("stage_all",))
+    ops.append(("reset_mixed",))
     if alt is not None:
         # discard-everything operations, from states without file/directory clashes at any tracked path
         involved = set(st.head) | set(st.index) | set(alt)
@@ -846,6 +866,7 @@ def menu(st, paths, alt=None):
         if calm:
             ops.append(("reset_hard",))
             ops.append(("switch_force",))
+            ops.append(("reset_mixed_alt",))
     return ops
 
 
@@ -871,9 +892,33 @@ def _m_parents(wd, p):
             del wd[q]
 
 
+KNOWN = {}  # blob id -> bytes of everything that ever was in a modelled work tree (what `restore` may have to write)
+
+
+def _learn(wd):
+    for e in wd.values():
+        if e[0] in ("f", "l"):
+            KNOWN.setdefault(wm.blob_id(e[1]), e[1])
+
+
+def _m_write(wd, p, ent):
+    """The work-tree entry a checkout of tree/index entry `ent` = (mode, id) must leave at p."""
+    _m_remove(wd, p)
+    _m_parents(wd, p)
+    data = KNOWN[ent[1]]
+    wd[p] = ("l", data) if ent[0] == LNK else ("f", data, ent[0] == EXE)
+
+
 def m_apply(st, op):
     """Pure model of one operation -> new MState."""
     k = op[0]
+    _learn(st.wd)
+    if k in RESTORE:
+        p = op[1]
+        wd = dict(st.wd)
+        _m_write(wd, p, st.index[p] if k == "restore" else st.head[p])
+        index = wm.m_stage(st.index, wd, p) if k == "co_paths" else st.index
+        return MState(st.head, index, wd)
     if k in GIT_OPS or k in TERMINAL:
         return MState(st.head, st.index, st.wd)  # (the result of a terminal operation is observed, not predicted)
     if k == "stage_all":
@@ -898,6 +943,8 @@ def m_apply(st, op):
     elif k == "del":
         _m_remove(wd, p)
         _m_fix_empty_parent(wd, p)
+    elif k == "flatten":
+        wd[p] = ("f", wd[p][1], False)
     elif k == "file":
         _m_remove(wd, p)
         _m_parents(wd, p)
@@ -948,6 +995,12 @@ def real_apply(box, op):
     if k == "switch_force":
         porcelain.checkout(r, b"B", force=True)
         return
+    if k == "reset_mixed":
+        porcelain.reset(r, "mixed", "HEAD")
+        return
+    if k == "reset_mixed_alt":
+        porcelain.reset(r, "mixed", open(os.path.join(box.gitdir, "refs", "heads", "B"), "rb").read().strip())
+        return
     p = op[1]
     full = box.full(p)
     if k == "stage":
@@ -956,6 +1009,19 @@ def real_apply(box, op):
         r.get_worktree().unstage([os.fsdecode(p)])
     elif k == "rmc":
         porcelain.remove(r, paths=[os.fsdecode(p)], cached=True)
+    elif k == "co_paths":
+        porcelain.checkout(r, paths=[p])
+    elif k == "reset_file":
+        porcelain.reset_file(r, os.fsdecode(p), b"HEAD")
+    elif k == "restore":
+        porcelain.restore(r, [p])
+    elif k == "flatten":
+        text = os.readlink(full)
+        os.unlink(full)
+        with open(full, "wb") as f:
+            f.write(text)
+        os.chmod(full, 0o644)
+        box.touch(p)
     elif k in ("same", "grow"):
         with open(full, "rb") as f:
             data = f.read()
@@ -998,7 +1064,9 @@ def op_str(op):
 
 
 OP_API = {"stage": "porcelain.add(path)", "stage_all": "porcelain.add(.)", "unstage": "WorkTree.unstage", "rmc": "porcelain.remove(cached)",
-          "reset_hard": "porcelain.reset(hard)", "switch_force": "porcelain.checkout(force)"}
+          "reset_hard": "porcelain.reset(hard)", "switch_force": "porcelain.checkout(force)", "reset_mixed": "porcelain.reset(mixed)",
+          "reset_mixed_alt": "porcelain.reset(mixed,other)", "co_paths": "porcelain.checkout(paths)", "reset_file": "porcelain.reset_file",
+          "restore": "porcelain.restore(worktree)"}
 
 
 def state_key(st, clean, tree_ext=False):
@@ -1075,9 +1143,20 @@ def run_edits(acc, sid, ops, use_git, judge_last=True, expect_key=None):
                     raise HarnessError("terminal operation inside a prefix: %s" % desc)
                 acc.count("transitions")
                 acc.outcome("op:%s" % k)
-                judge_discard(acc, box, st, alt if k == "switch_force" else st.head, k, alt_cid if k == "switch_force" else cid, wd, desc, rpl, use_git)
+                to_alt = k in ("switch_force", "reset_mixed_alt")
+                judge_discard(acc, box, st, alt if to_alt else st.head, k, alt_cid if to_alt else cid, wd, desc, rpl, use_git)
                 return None
-            if is_index_op:
+            if k in RESTORE:
+                if wd != new.wd:
+                    if not last:
+                        raise HarnessError("divergence while replaying a prefix: %s left another work tree than the model" % desc)
+                    acc.count("transitions")
+                    q = sorted(x for x in set(wd) | set(new.wd) if wd.get(x) != new.wd.get(x))[0]
+                    g, w = wd.get(q), new.wd.get(q)
+                    what = "missing" if g is None else "unexpected-entry" if w is None else "wrong-type(%s-instead-of-%s)" % (_kind1(g), _kind1(w)) if g[0] != w[0] else "wrong-content" if g[1] != w[1] else "wrong-exec-bit"
+                    acc.violation("op:%s:worktree-wrong:%s" % (OP_API[k], what), "%s: %s is %s, expected %s" % (desc, _pn(q), _short(g), _short(w)), rpl)
+                    return None
+            elif is_index_op:
                 if wd != st.wd:
                     if not last:
                         raise HarnessError("divergence while replaying a prefix: %s changed the work tree" % desc)
@@ -1130,6 +1209,21 @@ def judge_discard(acc, box, st, target, k, want_cid, wd, desc, rpl, use_git):
     ok = head_tree_ok(acc, where, box, want_cid, desc, rpl)
     idx, _, problem = box.read_index()
     if problem:
+        judge(acc, box, target, where, desc, rpl, use_git=use_git)
+        return
+    if k in ("reset_mixed", "reset_mixed_alt"):
+        # index == target tree exactly, work tree untouched
+        if wd != st.wd:
+            ok = False
+            acc.violation("%s:modified-the-working-directory" % where, "%s: before %r after %r" % (desc, sorted(st.wd), sorted(wd)), rpl)
+        for p in sorted(set(idx) | set(target)):
+            if idx.get(p) != target.get(p):
+                ok = False
+                cls = "entry-missing" if p not in idx else "entry-not-removed" if p not in target else "entry-wrong(%s,expected-%s)" % (diff_class(target[p], idx[p]), ent_kind(target[p]))
+                acc.violation("%s:index-wrong:%s:was-%s" % (where, cls, "unchanged-in-index" if st.index.get(p) == st.head.get(p) else "staged"),
+                              "%s: index entry %s is %r, target tree has %r" % (desc, _pn(p), idx.get(p), target.get(p)), rpl)
+                break
+        acc.outcome("discard:%s:%s" % (k, "ok" if ok else "failed"))
         judge(acc, box, target, where, desc, rpl, use_git=use_git)
         return
     if k == "reset_hard":
